@@ -91,7 +91,9 @@ SHAPES = {
         "const = node.as_const(frame.eval_ctx)",
         "if not has_safe_repr(const):\n    raise nodes.Impossible()",
         "if isinstance(node, nodes.TemplateData):\n    return const",
-        "return finalize.const(const)"],
+        "const = finalize.const(const)",
+        "if not isinstance(const, str):\n    try:\n        parsed = literal_eval(parse(str(const), mode='eval'))\n    except Exception:\n        raise nodes.Impossible() from None\n    if type(parsed) is not type(const) or parsed != const:\n        raise nodes.Impossible()",
+        "return const"],
     ("NativeCodeGenerator", "_output_child_pre"): ["if finalize.src is not None:\n    self.write(finalize.src)"],
     ("NativeCodeGenerator", "_output_child_post"): ["if finalize.src is not None:\n    self.write(')')"],
     ("NativeTemplate", "render"): [
